@@ -367,7 +367,10 @@ package dsl
 // that resolves the aliases *in* the model's union cases makes the later generators embed a different schema.
 //@ func ToUnionOfUnderlyingTypes
 //@   property C03,C04,C02
+// (the second precondition is a fact of the memory model - a pointer stored in the heap at the time of the call is
+// allocated - that the engine does not supply under a quantifier; callers owe it as an unclaimed obligation)
 //@   requires t != nil
+//@   requires forall k in 0..len(t.Cases) :: alive(t.Cases[k])
 //@   invariant 0: forall k in 0..len(t.Cases) :: (t.Cases[k] == old(t.Cases[k]) && !fresh(t.Cases[k]) && (t.Cases[k] != nil ==> t.Cases[k].Type == old(t.Cases[k].Type)))
 //@   ensures the_cases_of_the_model_are_left_alone: forall k in 0..len(t.Cases) :: (t.Cases[k] == old(t.Cases[k]) && (t.Cases[k] != nil ==> t.Cases[k].Type == old(t.Cases[k].Type)))
 //@   ensures the_result_is_a_new_object: result != nil && fresh(result)
